@@ -34,8 +34,12 @@ def countM : List Stage → Nat
 plain component), at most one transformer, two converters and one machine (D10f). -/
 def RepStages (st : List Stage) : Prop := 2 ≤ st.length ∧ countT st ≤ 1 ∧ countC st ≤ 2 ∧ countM st ≤ 1
 
+/-- A PTI/PTO may also have a single member (it stays a PTI/PTO: repo 1ca4f7b). -/
+def RepStagesPti (st : List Stage) : Prop := 1 ≤ st.length ∧ countT st ≤ 1 ∧ countC st ≤ 2 ∧ countM st ≤ 1
+
 def RepE : EComp → Prop
-  | .serial _ _ _ _ st => RepStages st
+  | .serial true _ _ _ st => RepStagesPti st
+  | .serial false _ _ _ st => RepStages st
   | _ => True
 
 /-- Switchboards are numbered 1..n (the breaker chain is implied by position: D10e) and every
@@ -49,7 +53,7 @@ def Representable (s : Sys) : Prop :=
 /-! ### Round trip of one component -/
 
 theorem stages_roundtrip (base : Sub) (hb : base.machine = none ∧ base.transformer = none ∧ base.conv1 = none ∧ base.conv2 = none)
-    (st : List Stage) (h : RepStages st) : stagesOf (putStages base st 1) = st.map Stage.norm := by
+    (st : List Stage) (h : RepStagesPti st) : stagesOf (putStages base st 1) = st.map Stage.norm := by
   obtain ⟨h2, hT, hC, hM⟩ := h
   obtain ⟨b1, b2, b3, b4⟩ := hb
   -- at most four stages
@@ -60,6 +64,9 @@ theorem stages_roundtrip (base : Sub) (hb : base.machine = none ∧ base.transfo
       | cons x l ih => cases x <;> simp [countT, countC, countM, ih] <;> omega
     rw [this st]; omega
   match st, h2, hlen, hT, hC, hM with
+  | [a], _, _, hT, hC, hM =>
+    cases a <;>
+      simp_all [countT, countC, countM, putStages, stagesOf, insertByOrder, Stage.norm, Option.toList]
   | [a, b], _, _, hT, hC, hM =>
     cases a <;> cases b <;>
       simp_all [countT, countC, countM, putStages, stagesOf, insertByOrder, Stage.norm, Option.toList]
@@ -87,19 +94,27 @@ normal form. -/
 theorem roundtrip_ecomp (c : EComp) (h : RepE c) : subToEComp (ecompToSub c) = .ok c.norm := by
   cases c with
   | serial pti n r s st =>
-    have hst : RepStages st := h
+    have hst : RepStagesPti st := by
+      cases pti
+      · exact ⟨by have := (h : RepStages st).1; omega, (h : RepStages st).2⟩
+      · exact h
     set base : Sub := { powerType := if pti then pPtiPto else pConsumer, componentType := if pti then tPtiPto else tDrive,
                         name := n, rated := r, speed := s } with hbase
     have hk := putStages_keeps base st 1
     have hs := stages_roundtrip base ⟨rfl, rfl, rfl, rfl⟩ st hst
-    have hlen : 2 ≤ (st.map Stage.norm).length := by simpa using hst.1
     unfold subToEComp
     simp only [ecompToSub, ← hbase, hk.1, hk.2.1, hk.2.2.1, hk.2.2.2.1, hk.2.2.2.2.1, hs]
-    cases pti <;> (
+    cases pti
+    · have hlen : 2 ≤ (st.map Stage.norm).length := by simpa using (h : RepStages st).1
       simp only [hbase, tPtiPto, tDrive, tFuelCellSys, tGenset, tCoges, tBatterySys, tBattery, tSupercapSys, tSupercap, tOtherLoad, tGenerator]
       match hm : st.map Stage.norm, hlen with
-      | a :: b :: rest, _ => simp [EComp.norm, hm])
-  | generator m => simp [ecompToSub, subToEComp, stagesOf, insertByOrder, EComp.norm, tGenerator, tFuelCellSys, tGenset, tCoges, tBatterySys, tBattery, tSupercapSys, tSupercap, tOtherLoad, Option.toList]
+      | a :: b :: rest, _ => simp [EComp.norm, hm]
+    · have hlen : 1 ≤ (st.map Stage.norm).length := by simpa using hst.1
+      simp only [hbase, tPtiPto, tDrive, tFuelCellSys, tGenset, tCoges, tBatterySys, tBattery, tSupercapSys, tSupercap, tOtherLoad, tGenerator]
+      match hm : st.map Stage.norm, hlen with
+      | [a], _ => simp [EComp.norm, hm]
+      | a :: b :: rest, _ => simp [EComp.norm, hm]
+  | generator m => simp [ecompToSub, subToEComp, stagesOf, insertByOrder, EComp.norm, tGenerator, tPtiPto, tFuelCellSys, tGenset, tCoges, tBatterySys, tBattery, tSupercapSys, tSupercap, tOtherLoad, Option.toList]
   | genset n e g => simp [ecompToSub, subToEComp, EComp.norm, tGenset, tFuelCellSys]
   | fuelCell n fc c => simp [ecompToSub, subToEComp, EComp.norm, FuelCell.norm, tFuelCellSys]
   | coges n cg g => simp [ecompToSub, subToEComp, EComp.norm, tCoges, tGenset, tFuelCellSys]
@@ -218,13 +233,16 @@ theorem curve_norm_idem (c : Curve) : c.norm.norm = c.norm := by cases c <;> rfl
 theorem ecomp_norm_rep (c : EComp) (h : RepE c) : RepE c.norm := by
   cases c with
   | serial pti n r s st =>
-    obtain ⟨h2, hT, hC, hM⟩ := h
     have hc : ∀ l : List Stage, countT (l.map Stage.norm) = countT l ∧ countC (l.map Stage.norm) = countC l ∧
         countM (l.map Stage.norm) = countM l := by
       intro l; induction l with
       | nil => exact ⟨rfl, rfl, rfl⟩
       | cons x l ih => cases x <;> simp [countT, countC, countM, Stage.norm, ih]
-    exact ⟨by simpa using h2, (hc st).1 ▸ hT, (hc st).2.1 ▸ hC, (hc st).2.2 ▸ hM⟩
+    cases pti
+    · obtain ⟨h2, hT, hC, hM⟩ := (h : RepStages st)
+      exact (⟨by simpa using h2, (hc st).1 ▸ hT, (hc st).2.1 ▸ hC, (hc st).2.2 ▸ hM⟩ : RepStages (st.map Stage.norm))
+    · obtain ⟨h2, hT, hC, hM⟩ := (h : RepStagesPti st)
+      exact (⟨by simpa using h2, (hc st).1 ▸ hT, (hc st).2.1 ▸ hC, (hc st).2.2 ▸ hM⟩ : RepStagesPti (st.map Stage.norm))
   | _ => trivial
 
 theorem engine_norm_idem (e : Engine) : e.norm.norm = e.norm := by
@@ -305,6 +323,54 @@ theorem enums :
       p ∈ typePowerFeems) := by
   refine ⟨by decide, by decide, by decide, by decide, by decide, by decide, by decide, by decide, by decide, by decide⟩
 
+/-! ### The breaker chain of the plant read back -/
+
+/-- Every breaker the reader invents joins two switchboards of the plant (no `KeyError`), and there is one less than
+there are switchboards. -/
+theorem mem_insertSorted (a x : Nat) (l : List Nat) : x ∈ insertSorted a l ↔ x = a ∨ x ∈ l := by
+  induction l with
+  | nil => simp [insertSorted]
+  | cons b r ih =>
+    unfold insertSorted
+    split
+    · simp
+    · simp [ih]; tauto
+
+theorem length_insertSorted (a : Nat) (l : List Nat) : (insertSorted a l).length = l.length + 1 := by
+  induction l with
+  | nil => simp [insertSorted]
+  | cons b r ih => unfold insertSorted; split <;> simp [ih]
+
+theorem mem_sortIds (x : Nat) (ids : List Nat) : x ∈ sortIds ids ↔ x ∈ ids := by
+  induction ids with
+  | nil => simp [sortIds]
+  | cons a r ih =>
+    have : sortIds (a :: r) = insertSorted a (sortIds r) := rfl
+    rw [this, mem_insertSorted, ih]; simp
+
+theorem length_sortIds (ids : List Nat) : (sortIds ids).length = ids.length := by
+  induction ids with
+  | nil => simp [sortIds]
+  | cons a r ih =>
+    have : sortIds (a :: r) = insertSorted a (sortIds r) := rfl
+    rw [this, length_insertSorted, ih]; simp
+
+theorem chain_members (ids : List Nat) : ∀ p ∈ chainOf ids, p.1 ∈ ids ∧ p.2 ∈ ids := by
+  intro p hp
+  unfold chainOf at hp
+  have h := List.of_mem_zip (a := p.1) (b := p.2) hp
+  exact ⟨(mem_sortIds _ _).mp h.1, (mem_sortIds _ _).mp (List.mem_of_mem_tail h.2)⟩
+
+theorem chain_length (ids : List Nat) : (chainOf ids).length = ids.length - 1 := by
+  unfold chainOf
+  simp [List.length_zip, length_sortIds]
+
+/-- Numbers 1..n in any order come back as (1,2),(2,3),…: the class the earlier reader covered is kept. -/
+example : chainOf [3, 1, 2] = [(1, 2), (2, 3)] ∧ chainOf [2, 5] = [(2, 5)] ∧ chainOf [7] = [] := by decide +kernel
+
+/-- As found, the chain named switchboards that are not there. -/
+theorem chain_legacy_missing : ∃ p ∈ chainLegacy [2, 5], p.1 ∉ [2, 5] := by decide
+
 /-! ### Non-vacuity -/
 
 def exDrive : EComp := .serial false "drive" 1000 900
@@ -312,6 +378,12 @@ def exDrive : EComp := .serial false "drive" 1000 900
 
 example : RepE exDrive ∧ subToEComp (ecompToSub exDrive) = .ok exDrive.norm ∧ exDrive.norm ≠ exDrive := by
   refine ⟨⟨by decide, by decide, by decide, by decide⟩, roundtrip_ecomp exDrive ⟨by decide, by decide, by decide, by decide⟩, by decide⟩
+
+/-- A PTI/PTO with a single member is inside the class (as found, the reader refused it). -/
+example : RepE (.serial true "pti" 500 1000 [.machine ⟨"m", 500, 1000, .value (96 / 100)⟩]) ∧
+    subToEComp (ecompToSub (.serial true "pti" 500 1000 [.machine ⟨"m", 500, 1000, .value (96 / 100)⟩])) =
+      .ok (.serial true "pti" 500 1000 [.machine ⟨"m", 500, 1000, .points [(0, 96 / 100), (1, 96 / 100)]⟩]) := by
+  refine ⟨⟨by decide, by decide, by decide, by decide⟩, by decide +kernel⟩
 
 /-- Outside the representable class information is lost: a third converter overwrites the second slot. -/
 theorem three_converters_lose_one :
